@@ -40,6 +40,14 @@ MUTANTS = [
     ("C16", "cuqi/solver/_solver.py", "return np.multiply(np.sign(x), np.maximum(np.abs(x)-gamma, 0))", "return np.multiply(np.sign(x), np.abs(x)-gamma)"),
     ("C16", "cuqi/solver/_solver.py", "        super().__init__(nfunc,x0,ngradfunc,method,**kwargs)", "        super().__init__(nfunc,x0,gradfunc,method,**kwargs)"),
     ("C16", "cuqi/solver/_solver.py", "        upper = np.ones_like(x)", "        upper = np.ones_like(x)*2"),
+    # C03
+    ("C03", "cuqi/distribution/_beta.py", "return (self.alpha - 1)/x + (self.beta-1)/(x-1)", "return (self.alpha - 1)/x - (self.beta-1)/(x-1)"),
+    ("C03", "cuqi/distribution/_gaussian.py", "return -( self.sqrtprec.T @ (self.sqrtprec @ (val - self.mean).T) )", "return -( self.sqrtprec.T @ (self.sqrtprec @ (val).T) )"),
+    ("C03", "cuqi/distribution/_gaussian.py", "return model.gradient(self.sqrtprec.T @ (self.sqrtprec @ dev), *args, **kwargs)", "return model.gradient(self.sqrtprec @ dev, *args, **kwargs)"),
+    ("C03", "cuqi/distribution/_posterior.py", "return self.likelihood.gradient(x)+ self.prior.gradient(x)", "return self.likelihood.gradient(x)"),
+    ("C03", "cuqi/distribution/_lognormal.py", "return np.diag(1/val)@(-1+self._normal.gradient(np.log(val)))", "return np.diag(1/val)@(self._normal.gradient(np.log(val)))"),
+    ("C03", "cuqi/distribution/_inverse_gamma.py", "        if np.any(val <= self.location):\n            return val*np.nan", "        if False:\n            return val*np.nan"),
+    ("C03", "cuqi/utilities/_utilities.py", "        FD_gradient[i] = (func(x_plus_eps) - func_x)/epsilon", "        FD_gradient[i] = (func(x_plus_eps) - func_x)/(2*epsilon)"),
     # C04 / C05
     ("C04", "cuqi/distribution/_gaussian.py", "        logdet = np.sum(-np.log(prec))\n        rank = dim\n        if sparse_flag:\n            # cov = spa.diags(1/prec", "        logdet = np.sum(np.log(prec))\n        rank = dim\n        if sparse_flag:\n            # cov = spa.diags(1/prec"),
     ("C04", "cuqi/distribution/_gamma.py", "return np.sum(sps.gamma.logpdf(x, a=self.shape, loc=0, scale=self.scale))", "return np.sum(sps.gamma.logpdf(x, a=self.shape, loc=0, scale=self.rate))"),
